@@ -39,11 +39,12 @@ theorem uniq_step {id : Nat} {st : State} {c0 : Client} (op : Op) (h : Uniq id s
 /-- messages to `id` come from the unique record -/
 theorem uniq_msgs {id : Nat} {st : State} {c0 : Client} {op : Op} {m : Msg} (h : Uniq id st c0)
     (hm : (id, m) ∈ (step st op).2.msgs) :
-    (op = .update id ∧ (id, m) ∈ (updateClient st.scr c0).2.msgs) ∨
+    ((op = .update id ∨ (op = .updateExtFail id ∧ extFails c0 = false)) ∧
+      (id, m) ∈ (updateClient st.scr c0).2.msgs) ∨
     (∃ k, op = .setScale id k ∧ (setScale st.scr c0 k).2 = some m) := by
   rcases step_msgs hm with ⟨c, hc, ho, hmm⟩ | ⟨c, k, hc, ho, hmm⟩
   · obtain ⟨h1, h2⟩ := getClient_some hc
-    rw [h.2.2 c h1 h2] at hmm
+    rw [h.2.2 c h1 h2] at hmm ho
     exact Or.inl ⟨ho, hmm⟩
   · obtain ⟨h1, h2⟩ := getClient_some hc
     rw [h.2.2 c h1 h2] at hmm
@@ -63,6 +64,11 @@ def Op.keepsExt (id : Nat) : Op → Prop
 
 def Op.noRescale (id : Nat) : Op → Prop
   | .setScale id' _ => id' ≠ id
+  | _ => True
+
+/-- the connection of client `id` is not lost and the application's screen hook does not fail for it -/
+def Op.noFailure (id : Nat) : Op → Prop
+  | .updateFail id' | .updateExtFail id' | .drop id' => id' ≠ id
   | _ => True
 
 def Op.noSds : Op → Prop
@@ -89,12 +95,17 @@ theorem newFbClient_flags (s : Screen) (w h bpp : Int) (tok : Nat) (c : Client) 
 
 theorem pendF_stepClient (id : Nat) (tw th : Int) (st : State) (op : Op) (c : Client)
     (hid : c.id = id) (hF : PendF tw th c)
-    (hr : op.appResize = false) (hk : op.keepsCap id) (hs : op.noRescale id)
+    (hr : op.appResize = false) (hk : op.keepsCap id) (hs : op.noRescale id) (hl : op.noFailure id)
     (hno : ∀ m, (id, m) ∈ (step st op).2.msgs → False) (hu : Uniq id st c) :
     PendF tw th (stepClient st op c) := by
   obtain ⟨hnf, hp, hw, hh⟩ := hF
+  have other : ∀ id' : Nat, id' ≠ id → (c.id == id') = false := by
+    intro id' hne; rw [hid]; simpa using fun h => hne h.symm
   cases op with
   | newClient | pointer => exact ⟨hnf, hp, hw, hh⟩
+  | updateFail id' => simp only [stepClient, other id' hl]; exact ⟨hnf, hp, hw, hh⟩
+  | updateExtFail id' => simp only [stepClient, other id' hl]; exact ⟨hnf, hp, hw, hh⟩
+  | drop id' => simp only [stepClient, other id' hl]; exact ⟨hnf, hp, hw, hh⟩
   | newFramebuffer => simp [Op.appResize] at hr
   | setEncodings id' cr cs nf ext =>
     simp only [stepClient]
@@ -182,13 +193,13 @@ scale, and the application does not resize again, the first message it receives 
 change became pending is the size message carrying its current geometry `tw × th`. -/
 theorem size_first (id : Nat) (tw th : Int) (ops : List Op) (st : State) (c0 : Client)
     (hu : Uniq id st c0) (hF : PendF tw th c0)
-    (hA : ∀ op ∈ ops, op.appResize = false ∧ op.keepsCap id ∧ op.noRescale id) :
+    (hA : ∀ op ∈ ops, op.appResize = false ∧ op.keepsCap id ∧ op.noRescale id ∧ op.noFailure id) :
     ∀ m, (msgsTo id (run st ops).2).head? = some m → IsSizeOf tw th m := by
   intro m hm
   refine first_relevant id (fun _ => true) (fun st => ∃ c0, Uniq id st c0 ∧ PendF tw th c0)
-    (IsSizeOf tw th) (fun op => op.appResize = false ∧ op.keepsCap id ∧ op.noRescale id)
+    (IsSizeOf tw th) (fun op => op.appResize = false ∧ op.keepsCap id ∧ op.noRescale id ∧ op.noFailure id)
     ?_ ops st ⟨c0, hu, hF⟩ hA m ?_
-  · intro st op ⟨c, hu, hF⟩ ⟨ha1, ha2, ha3⟩
+  · intro st op ⟨c, hu, hF⟩ ⟨ha1, ha2, ha3, ha4⟩
     constructor
     · intro m hm _
       rcases uniq_msgs hu hm with ⟨_, hmm⟩ | ⟨k, ho, _⟩
@@ -202,7 +213,7 @@ theorem size_first (id : Nat) (tw th : Int) (ops : List Op) (st : State) (c0 : C
       · subst ho; exact absurd rfl ha3
     · intro hno
       exact ⟨stepClient st op c, uniq_step op hu,
-        pendF_stepClient id tw th st op c hu.2.1 hF ha1 ha2 ha3
+        pendF_stepClient id tw th st op c hu.2.1 hF ha1 ha2 ha3 ha4
           (fun m hm => by simpa using hno m hm) hu⟩
   · cases hl : msgsTo id (run st ops).2 with
     | nil => rw [hl] at hm; simp at hm
@@ -214,12 +225,17 @@ theorem size_first (id : Nat) (tw th : Int) (ops : List Op) (st : State) (c0 : C
 def ExtF (r s : Int) (c : Client) : Prop := c.useExt = true ∧ c.reqChange = r ∧ c.lastErr = s
 
 theorem extF_stepClient (id : Nat) (r s : Int) (st : State) (op : Op) (c : Client)
-    (hid : c.id = id) (hF : ExtF r s c) (hk : op.keepsExt id) (hs : op.noSds)
+    (hid : c.id = id) (hF : ExtF r s c) (hk : op.keepsExt id) (hs : op.noSds) (hlv : op.noFailure id)
     (hno : ∀ m, (id, m) ∈ (step st op).2.msgs → m.isSize = false) (hu : Uniq id st c) :
     ExtF r s (stepClient st op c) := by
   obtain ⟨he, hr, hl⟩ := hF
+  have other : ∀ id' : Nat, id' ≠ id → (c.id == id') = false := by
+    intro id' hne; rw [hid]; simpa using fun h => hne h.symm
   cases op with
   | newClient | pointer => exact ⟨he, hr, hl⟩
+  | updateFail id' => simp only [stepClient, other id' hlv]; exact ⟨he, hr, hl⟩
+  | updateExtFail id' => simp only [stepClient, other id' hlv]; exact ⟨he, hr, hl⟩
+  | drop id' => simp only [stepClient, other id' hlv]; exact ⟨he, hr, hl⟩
   | setDesktopSize => exact False.elim hs
   | newFramebuffer w h bpp tok =>
     obtain ⟨_, h2, h3, h4, _⟩ := newFbClient_flags st.scr w h bpp tok c
@@ -286,12 +302,13 @@ fields hold reason `r` and status `s`, then — as long as nobody sends a SetDes
 keeps the extension — the first size message it receives is the extended one carrying exactly
 `r` and `s`. -/
 theorem ext_fields_delivered (id : Nat) (r s : Int) (ops : List Op) (st : State) (c0 : Client)
-    (hu : Uniq id st c0) (hF : ExtF r s c0) (hA : ∀ op ∈ ops, op.keepsExt id ∧ op.noSds) :
+    (hu : Uniq id st c0) (hF : ExtF r s c0)
+    (hA : ∀ op ∈ ops, op.keepsExt id ∧ op.noSds ∧ op.noFailure id) :
     ∀ m, (msgsTo id (run st ops).2).find? Msg.isSize = some m → ∃ w h l, m = .ext r s w h l := by
   refine first_relevant id Msg.isSize (fun st => ∃ c0, Uniq id st c0 ∧ ExtF r s c0)
-    (fun m => ∃ w h l, m = .ext r s w h l) (fun op => op.keepsExt id ∧ op.noSds)
+    (fun m => ∃ w h l, m = .ext r s w h l) (fun op => op.keepsExt id ∧ op.noSds ∧ op.noFailure id)
     ?_ ops st ⟨c0, hu, hF⟩ hA
-  intro st op ⟨c, hu, hF⟩ ⟨ha1, ha2⟩
+  intro st op ⟨c, hu, hF⟩ ⟨ha1, ha2, ha3⟩
   constructor
   · intro m hm hrel
     rcases uniq_msgs hu hm with ⟨_, hmm⟩ | ⟨k, _, hmm⟩
@@ -310,6 +327,6 @@ theorem ext_fields_delivered (id : Nat) (r s : Int) (ops : List Op) (st : State)
       exact Bool.noConfusion hrel
   · intro hno
     exact ⟨stepClient st op c, uniq_step op hu,
-      extF_stepClient id r s st op c hu.2.1 hF ha1 ha2 hno hu⟩
+      extF_stepClient id r s st op c hu.2.1 hF ha1 ha2 ha3 hno hu⟩
 
 end VncModel.Resize
